@@ -248,6 +248,8 @@ func renderTreeGen(r *Rng) *TreeGen {
 	g.CondPct = 20
 	g.StackPct = 30
 	g.BadOpPct = 10
+	// the index options have nothing to say about rendering: switched on at random
+	g.Opts = []int{1, 2, 4, 8, 16, 32}
 	return g
 }
 
@@ -346,6 +348,12 @@ func genRender(ctx *Ctx, emit func(any, string)) {
 	for _, l := range []*Node{{T: "int", I: -7}, {T: "int", Ty: 4, I: -9223372036854775808}, {T: "int", Ty: 4, I: 9223372036854775807},
 		{T: "int", Ty: 14, I: 9223372036854775807}, {T: "int", Ty: 1, I: -128}, {T: "float", Ty: 21, F: -0.5}, {T: "float", Ty: 20, F: 0.1}, {T: "bool", Bv: true}} {
 		emit(RenderInput{Tree: &Node{T: "stack", Kind: "OR", Enc: [][]string{{"<", ">"}}, Els: []*Node{l, leafOf("x")}}}, "exhaustive")
+		// negative / forward index support must not show in String
+		for _, io := range []int{16, 32, 48} {
+			emit(RenderInput{Tree: &Node{T: "stack", Kind: "AND", Opt: io, Els: []*Node{l, leafOf("x"), leafOf("y")}}}, "exhaustive")
+			emit(RenderInput{Tree: &Node{T: "stack", Kind: "LIST", Opt: io | 1, Delim: ",", Els: []*Node{leafOf("x"),
+				{T: "stack", Kind: "OR", Opt: io, Els: []*Node{l, leafOf("z")}}}}}, "exhaustive")
+		}
 		// three and four one-character schemes installed by ONE SetEncap call, several leaves
 		emit(RenderInput{Tree: &Node{T: "stack", Kind: "AND", Enc: [][]string{{"|"}, {"'"}, {"\""}}, Els: []*Node{l, leafOf("x"), leafOf("y")}}}, "exhaustive")
 		emit(RenderInput{Tree: &Node{T: "stack", Kind: "LIST", Enc: [][]string{{"|"}, {"'"}, {"\""}, {"`"}}, Els: []*Node{leafOf("x"), l,
